@@ -306,6 +306,16 @@ func syncSessChild(a syncSessArg) (*syncSessResult, error) {
 		}
 		return "hanging"
 	}
+	// an aborted block download leaves its traces by timing (F21): those sessions are played three times over
+	var list []syncSessBehaviour
+	for _, b := range a.Behaviours {
+		list = append(list, b)
+		last := b.Steps[len(b.Steps)-1]
+		if last.Stage == "blocks-1" && last.Answer != "correct" && last.Answer != "silent" {
+			list = append(list, b, b)
+		}
+	}
+	a.Behaviours = list
 	for i, b := range a.Behaviours {
 		if a.Progress != "" {
 			os.WriteFile(a.Progress, []byte(fmt.Sprintf("%d %s", i, b.key())), 0o644)
